@@ -1,0 +1,16 @@
+//go:build verif
+
+package hls
+
+import "github.com/q191201771/naza/pkg/filesystemlayer"
+
+// Verification hooks (build tag verif): add-only exports used by the /verif conformance harness.
+
+// VerifSetFsl installs fsl as the file-system layer behind every file operation of this package
+// (fragments, playlists, cleanup) and returns the layer that was in use, so that a test can record
+// each operation and the state it leaves behind.
+func VerifSetFsl(fsl filesystemlayer.IFileSystemLayer) filesystemlayer.IFileSystemLayer {
+	old := fslCtx
+	fslCtx = fsl
+	return old
+}
